@@ -890,3 +890,36 @@ func SplitQueryDecor(p string) (path, pre, suf string) {
 	}
 	return
 }
+
+// QueryRawGet sends a DoH GET whose dns parameter is the given RAW text (no encoding applied by the harness).
+func (e *RouterEnv) QueryRawGet(l string, raw []byte, client string, timeout time.Duration) (resps [][]byte, status string) {
+	base := strings.TrimSuffix(l, "-get")
+	port := e.Ports[base]
+	u := fmt.Sprintf("http://127.0.0.1:%d/dns-query", port)
+	tr := &http.Transport{DisableKeepAlives: true}
+	if strings.HasPrefix(base, "https") {
+		u = fmt.Sprintf("https://127.0.0.1:%d/dns-query", port)
+		tr = &http.Transport{DisableKeepAlives: true, ForceAttemptHTTP2: true, TLSClientConfig: &tls.Config{InsecureSkipVerify: true}}
+	}
+	defer tr.CloseIdleConnections()
+	req, err := http.NewRequest("GET", u, nil)
+	if err != nil {
+		return nil, "bad-request"
+	}
+	req.URL.RawQuery = "dns=" + string(raw)
+	req.Header.Set("Accept", "application/dns-message")
+	if client != "" && client != "-" {
+		req.Header.Set("X-Verif-Client", client)
+	}
+	cl := &http.Client{Timeout: timeout, Transport: tr}
+	resp, err := cl.Do(req)
+	if err != nil {
+		return nil, "no-response"
+	}
+	defer resp.Body.Close()
+	body, _ := io.ReadAll(resp.Body)
+	if resp.StatusCode != 200 {
+		return nil, fmt.Sprintf("http-%d", resp.StatusCode)
+	}
+	return [][]byte{body}, "ok"
+}
